@@ -131,6 +131,7 @@ func runC11(c *core.Ctx) *core.Violation {
 	}
 	c.Sample = map[string]interface{}{"rdb_len": len(file), "rdb_version": version, "records": len(recs), "digest_len": len(data), "alternatives_per_byte": alts}
 	c.Key = hashBytes(file) ^ hashBytes(data)
+	c.Nontrivial = len(file) > 0 // an artefact exists from here on, whatever the verdict
 	dbg("rdb generated len=%d", len(file))
 	entries, err, _ := loadAll(file)
 	dbg("intact loaded entries=%d", len(entries))
